@@ -28,6 +28,7 @@ JOBS = {'quick': 4, 'thorough': 16}
 REQUIRED_MONITORS = ('optimiser_boundary', 'residue_guesser', 'protein_guesser', 'manager_routing', 'manager_rejection')
 REQUIRED_CLASSES = ('sizes:start-smaller', 'sizes:start-larger', 'sizes:tie', 'hydrogens:ignored', 'hydrogens:kept',
                     'pairs:on-hydrogen', 'pairs:duplicates', 'guess:mismatching-residue-count', 'routing:partial-dicts',
+                    'routing:preparsed-own-order',
                     'reject:unknown-species', 'reject:malformed-pair', 'reject:index-out-of-range', 'reject:bad-deformation',
                     'reject:bad-hydrogen-flag')
 RULE = ('(a) molecule pairs (either one larger or tie, random hydrogens in both) x restraint lists (empty, partial, duplicates, '
@@ -334,10 +335,11 @@ def run_manager(ctx, case):
         with bus.patched(Alignment, 'align_molecules', recorder):
             for rep in range(12):
                 del log[:]
-                mode = ['valid', 'valid', 'unknown-species', 'malformed-pair', 'index-out-of-range', 'bad-deformation',
-                        'bad-hydrogen-flag'][int(rng.integers(0, 7))]
+                mode = ['valid', 'valid', 'valid-preparsed', 'unknown-species', 'malformed-pair', 'index-out-of-range',
+                        'bad-deformation', 'bad-hydrogen-flag'][int(rng.integers(0, 8))]
                 restr, defo, ign = {}, {}, {}
-                for n in complete:
+                # the three dictionaries are filled in independent random key orders
+                for n in [complete[k] for k in rng.permutation(len(complete))]:
                     if rng.random() < 0.6:
                         k = int(rng.integers(0, 5))
                         restr[n] = [(int(rng.integers(0, sizes[n][0])), int(rng.integers(0, sizes[n][1]))) for _ in range(k)]
@@ -345,6 +347,15 @@ def run_manager(ctx, case):
                         defo[n] = [(0,), (0, 1), (0, 1, 2), (1,), (2, 0)][int(rng.integers(0, 5))]
                     if rng.random() < 0.6:
                         ign[n] = bool(rng.random() < 0.5)
+                defo = {n: defo[n] for n in [list(defo)[k] for k in rng.permutation(len(defo))]}
+                ign = {n: ign[n] for n in [list(ign)[k] for k in rng.permutation(len(ign))]}
+                preparsed = mode == 'valid-preparsed'
+                if preparsed:
+                    # restraints already validated by the caller (0-based), listed in the caller's own order for all or
+                    # some of the species: only the listed species are aligned, each with its own options
+                    keep = [complete[k] for k in rng.permutation(len(complete))][:int(rng.integers(1, len(complete) + 1))]
+                    restr = {n: restr.get(n, []) for n in keep}
+                    mode = 'valid'
                 victim = complete[int(rng.integers(0, len(complete)))]
                 others = [n for n in w['files'] if n not in complete]
                 if mode == 'unknown-species':
@@ -368,11 +379,13 @@ def run_manager(ctx, case):
                 kwargs = {}
                 if restr or rng.random() < 0.5:
                     kwargs['restrictions'] = restr
+                if preparsed:
+                    kwargs['parse_restrictions'] = False
                 if defo or rng.random() < 0.5:
                     kwargs['deformation_types'] = defo
                 if ign or rng.random() < 0.5:
                     kwargs['ignore_hydrogens'] = ign
-                wit = {'complete_species': complete, 'all_species': list(w['files']), 'mode': mode,
+                wit = {'complete_species': complete, 'all_species': list(w['files']), 'mode': mode, 'parse_restrictions': not preparsed,
                        'restrictions': restr, 'deformation_types': defo, 'ignore_hydrogens': ign}
                 ctx.count('evaluations')
                 try:
@@ -386,9 +399,13 @@ def run_manager(ctx, case):
                         ctx.violation(f'valid-options-rejected:{type(raised).__name__}', str(raised)[:200], witness=wit)
                         continue
                     names = [e[0] for e in log]
-                    if sorted(names) != complete:
-                        ctx.violation('alignments-started-for-wrong-species', f'alignments started for {names}, complete species {complete}', witness=wit)
+                    if sorted(names) != (sorted(restr) if preparsed else complete):
+                        ctx.violation('alignments-started-for-wrong-species', f'alignments started for {names}, complete species {complete}'
+                                      + (f', pre-parsed restraints for {sorted(restr)}' if preparsed else ''), witness=wit)
                         continue
+                    if preparsed:
+                        ctx.hit('routing:preparsed-own-order' if list(restr) != [n for n in complete if n in restr] or len(restr) < len(complete)
+                                else 'routing:preparsed-system-order')
                     for name, r, d, g in log:
                         want_r = restr.get(name) or None
                         want_d = defo.get(name) or None
